@@ -75,18 +75,20 @@ def r1(idx, rep):
             nm = call_name(c)
             if nm not in ("DataFileReader", "get_reader", "CsvDataReader", "XlsxDataReader", "get_named_file_reader") and not (nm in ("class_",) and fi.qual == "DataFileReader.__new__"):
                 continue
-            if nm == "get_named_file_reader" and fi.qual not in READER_SITES:
+            own = K.owner_of(idx, fi, set(READER_SITES))
+            exempt = K.owner_of(idx, fi, set(EXEMPT_SITES))
+            if nm == "get_named_file_reader" and own is None:
                 continue
             n += 1
-            key = f"{fi.file}::{fi.qual} reader {nm}"
-            if fi.qual in EXEMPT_SITES:
-                rep.ok("R1", key, f"exempt: {EXEMPT_SITES[fi.qual]}", K.where(fi, c))
+            key = f"{fi.file}::{own or exempt or fi.qual} reader {nm}"
+            if exempt is not None:
+                rep.ok("R1", key, f"exempt: {EXEMPT_SITES[exempt]}", K.where(fi, c))
                 continue
-            kw = K.kw_text(fi, c)
-            want = READER_SITES.get(fi.qual)
-            if want is None:
+            if own is None:
                 rep.fail("R1", key, f"`{unparse(c)[:100]}`: a reader is constructed at a site that is not known to forward the instance's dialect", K.where(fi, c))
                 continue
+            kw = K.kw_values(idx, fi, c)
+            want = READER_SITES[own]
             rep.check(kw.get("delimiter") == want[0] and kw.get("quotechar") == want[1], "R1", key,
                       f"`{unparse(c)[:120]}` passes delimiter={kw.get('delimiter')}, quotechar={kw.get('quotechar')}; expected {want[0]}, {want[1]} (both: a dropped quotechar reads quoted delimiters as cell breaks)", K.where(fi, c))
     rep.floor("R1", 7, "reader constructions")
@@ -147,7 +149,7 @@ def r2(idx, rep):
         fi = s["fi"]
         tt = unparse(s["target"])
         if tt in ("self.matcher.line", "self._line", "self.line") and fi.cls in ("CsvPath", "Matcher"):
-            okw = fi.qual in ("CsvPath.matches", "Matcher.__init__", "Matcher.line")
+            okw = K.owner_of(idx, fi, {"CsvPath.matches", "Matcher.__init__", "Matcher.line"}) is not None
             rep.check(okw, "R2", f"{fi.file}::{fi.qual} binds the matcher's line", f"`{unparse(s['stmt'])}`", K.where(fi, s["stmt"]))
 
 
